@@ -148,7 +148,7 @@ func main() {
 		return
 	}
 	r := mc.Start("C12")
-	r.Rule("every loop body of <= 2 ownership operations over the full alphabet (44 operations) and <= max_body_len_core_alphabet over the 21 core operations that the reference heap-graph model marks cycle-free, in up to 3 loop shapes, run for N in {1,2,3,10,100} on the real compiled program with instrumented runtime; (live blocks, live bytes, heap bump pointer) recorded by the host at the end of every iteration; distinct = distinct (shape, steady-state census) pairs")
+	r.Rule("every loop body of <= 2 ownership operations over the full alphabet (55 operations) and <= max_body_len_core_alphabet over the 21 core operations that the reference heap-graph model marks cycle-free, in up to 3 loop shapes, run for N in {1,2,3,10,100} on the real compiled program with instrumented runtime; (live blocks, live bytes, heap bump pointer) recorded by the host at the end of every iteration; distinct = distinct (shape, steady-state census) pairs")
 	r.Bound("ops", len(progs.OwnOps))
 	r.Bound("ops_core", progs.OwnCoreOps)
 	r.Bound("max_body_len_full_alphabet", 2)
